@@ -1,8 +1,11 @@
 import Driver.OpsProc
+import Driver.OpsXml
+import Driver.OpsIds
+import Driver.OpsDir
 namespace Driver
 
 def runOp (op : String) (args : List String) : String :=
-  let fs : List (String → List String → String) := [runOpLabel, runOpNav, runOpTransform, runOpThm, runOpEdit, runOpSplit, runOpAnalysis, runOpTrans, runOpGrammar, runOpWrite, runOpRead, runOpConvert, runOpProc]
+  let fs : List (String → List String → String) := [runOpLabel, runOpNav, runOpTransform, runOpThm, runOpEdit, runOpSplit, runOpAnalysis, runOpTrans, runOpGrammar, runOpWrite, runOpRead, runOpConvert, runOpProc, runOpDir, runOpXml, runOpIds]
   let rec go : List (String → List String → String) → String
     | [] => "UNKNOWN-OP " ++ op
     | f :: rest => let r := f op args; if r == unknownOp then go rest else r
